@@ -67,6 +67,42 @@ Theorem C06_first_last :
 Proof. exact first_last_spec. Qed.
 Print Assumptions C06_first_last.
 
+(* M4 (part): textContent is the concatenation of the text nodes below the node in document (preorder) order, and
+   getElementsByTagName is the preorder listing of the elements of that name below the node; in every consistent
+   heap (without attribute maps for the latter), and the Model's recursion fuel suffices. *)
+Theorem C06_text_content :
+  forall (h : heap) (n : nat), wf_b h = true -> n < length h ->
+    text_content (S (length h)) h n = Some (concat (map (text_of h) (dfs (S (length h)) h n))).
+Proof. exact text_content_spec_b. Qed.
+Print Assumptions C06_text_content.
+
+Theorem C06_elements_by_tag_name :
+  forall (h : heap) (n : nat) (name : Z), wf_b h = true -> no_attrs h = true -> n < length h ->
+    by_tag (S (length h)) h n name = Some (filter (fun x => has_name h x name) (tl (dfs (S (length h)) h n))).
+Proof. exact by_tag_spec_b. Qed.
+Print Assumptions C06_elements_by_tag_name.
+
+(* M5, Spec side: the normalized tree has the same text, no two adjacent text children anywhere, and normalizing it
+   again changes nothing.  (That the tree below p after Node.normalize IS [norm_tree] of the tree before is checked on
+   every normalize step of every run -- [normalize_conforms], evaluated by the extracted Model -- not proved.) *)
+Theorem C06_norm_tree_text : forall t : tree, tree_text (norm_tree t) = tree_text t.
+Proof. exact norm_tree_text. Qed.
+Theorem C06_norm_tree_no_adjacent : forall t : tree, no_adjacent (norm_tree t) = true.
+Proof. exact norm_tree_no_adjacent. Qed.
+Theorem C06_norm_tree_idempotent : forall t : tree, norm_tree (norm_tree t) = norm_tree t.
+Proof. exact norm_tree_idempotent. Qed.
+Print Assumptions C06_norm_tree_idempotent.
+
+(* known finding C06-compare-stale-parent-cycle: an admissible history after which compareDocumentPosition of two
+   siblings' text nodes does not return, where the tree says FOLLOWING (replayed on the real code: same) *)
+Theorem C06_compare_stale_cycle_refuted :
+  exists (ops : list op) (s o : nat),
+    forallb covered ops = true /\ adm_hist [] ops = true /\
+    let h := run [] ops in
+    wf_b h = true /\ root_of h s = root_of h o /\ spec_compare h s o = POS_FOLLOWING /\ compare_pos h s o = VHang.
+Proof. exact compare_stale_cycle_refuted. Qed.
+Print Assumptions C06_compare_stale_cycle_refuted.
+
 (* the invariant, clause by clause (what [wf_b h = true] means) *)
 Theorem C06_wf_meaning :
   forall h : heap, wf_b h = true <->
